@@ -381,6 +381,8 @@ def tasks(tier):
         n = {("full", 3): 7, ("reduced", 4): 6, ("mini", 4): 2}.get((t.get("menu"), t.get("depth")), 1)
         if t["kind"] == "bfs" and len(t["start"]) == 2 and t["depth"] == 3:
             n = 3
+        if t["kind"] == "bfs" and (t["menu"], t["depth"]) == ("reduced", 3) and any(x in BIG for x in t["start"]):
+            n = 4                                    # 12-42 vertices or three starting meshes: ~10^4 transitions
         if t["kind"] == "bfs" and n > 1:
             split += [dict(t, shard=[k, n]) for k in range(n)]
         else:
